@@ -89,6 +89,29 @@ func BuildSTACK(e EPConfig, reg *Registry) *STACK.Config {
 	if e.Clone {
 		c = c.Clone()
 	}
+	switch e.Via {
+	case "clone":
+		c = c.Clone()
+	case "host-clone":
+		// the virtual-hosting idiom: the listener's configuration only selects, every connection runs on a
+		// clone of the real one handed out by GetConfigForClient
+		inner := c
+		outer := &STACK.Config{Time: c.Time, Rand: c.Rand}
+		extraSTACK(outer, e)
+		outer.GetConfigForClient = func(*STACK.ClientHelloInfo) (*STACK.Config, error) { return inner.Clone(), nil }
+		c = outer
+	case "host-lax":
+		// one host name is served by a configuration that asks for no client certificate; every other hello
+		// gets no answer from the callback, i.e. the configuration itself
+		lax := c.Clone()
+		lax.ClientAuth = STACK.NoClientCert
+		c.GetConfigForClient = func(h *STACK.ClientHelloInfo) (*STACK.Config, error) {
+			if h.ServerName == "lax.example" {
+				return lax, nil
+			}
+			return nil, nil
+		}
+	}
 	return c
 }
 
